@@ -278,6 +278,39 @@ def jobStatus (jobs : List Nat) (log : List (Nat × Result)) (i : Nat) : Option 
     | none => none
   else some (.echild, jobs)
 
+/-- Executable `status::wait_while_running(job_status(i))` on top of the executable scheduler: look the job
+    up, else run one `wait_for_any_job_or_trap` (request `wait(-1)`, `run` with the `k`-th choice list) to
+    completion and look again.  `none` = the built-in fails (NothingToWait) or the driver's fuel ran out. -/
+def awaitJobRun (runFuel : Nat) (choices : Nat → List Nat) :
+    Nat → List Nat → Sys → Nat → List Nat × Sys × Option WaitRes
+  | 0, jobs, s, _ => (jobs, s, none)
+  | k + 1, jobs, s, i =>
+    match jobStatus jobs s.log i with
+    | some (res, jobs') => (jobs', s, some res)
+    | none =>
+      let t := run runFuel (choices k) { s with todo := [.wait .any] }
+      if t.final then
+        (if t.results.head? = some .echild then (jobs, t, none)
+         else awaitJobRun runFuel choices k jobs t i)
+      else (jobs, t, none)
+
+/-- Executable `Command::await_jobs` over the resolved operands: `None → NOT_FOUND`, `Some(i) →
+    wait_while_running`, and ON TO THE NEXT OPERAND; one result per operand.  `none` = failed / out of fuel. -/
+def awaitJobsRun (runFuel outer : Nat) (choices : Nat → List Nat) :
+    List Nat → Sys → List (Option Nat) → Option (List Nat × Sys × List WaitRes)
+  | jobs, s, [] => some (jobs, s, [])
+  | jobs, s, none :: t =>
+    match awaitJobsRun runFuel outer choices jobs s t with
+    | some (jobs', s', rs) => some (jobs', s', .echild :: rs)
+    | none => none
+  | jobs, s, some i :: t =>
+    match awaitJobRun runFuel choices outer jobs s i with
+    | (jobs1, s1, some res) =>
+      match awaitJobsRun runFuel outer choices jobs1 s1 t with
+      | some (jobs', s', rs) => some (jobs', s', res :: rs)
+      | none => none
+    | (_, _, none) => none
+
 /-! ### exit statuses -/
 
 /-- `ExitStatus::from(ProcessResult)`: exited → status, signaled → 128 + 256 + signal number -/
